@@ -37,10 +37,6 @@ SYS_SERVICE_TYPES = ["icmp", "arp", "user-manager", "user-session-manager"]
 # system software of HostNode (installed by the node type itself): never listed again in the scenario except in `dup`
 HOST_SYSTEM = {"dns-client", "ntp-client", "web-browser", "nmap", "terminal", "user-manager", "user-session-manager", "arp",
                "icmp"}
-PORTS = {"dns-client": 53, "dns-server": 53, "database-service": 5432, "web-server": 80, "ftp-client": 21, "ftp-server": 21,
-         "ntp-client": 123, "ntp-server": 123, "terminal": 22, "database-client": 5432, "web-browser": 80, "dos-bot": 5432,
-         "c2-beacon": 80, "c2-server": 80}
-
 SVC_EVENTS = ["start", "stop", "pause", "resume", "restart", "disable", "enable", "fix", "scan", "tick", "shutdown", "startup",
               "payload"]
 APP_EVENTS = ["run", "close", "fix", "scan", "execute", "install", "uninstall", "tick", "shutdown", "startup", "payload"]
@@ -381,7 +377,11 @@ class Monitor:
                 self.t += 1
                 direction = self.power.tick()
                 self.power_edges = direction is not None
-                self.sim.apply_timestep(self.t)
+                try:
+                    self.sim.apply_timestep(self.t)
+                except Exception as e:  # a raising tick is robustness business (C05), and nothing after it can be judged
+                    self.cov.hit("diag_tick_raised", type(e).__name__)
+                    raise Stop()
                 self.completed = set()
                 for r in self.refs.values():
                     if direction:
@@ -424,7 +424,11 @@ class Monitor:
             elif verb == "run":
                 obj = self.cur(target)
                 if obj is not None:
-                    obj.run()
+                    try:
+                        obj.run()
+                    except Exception as e:
+                        self.cov.hit("diag_run_raised", f"{target}|{type(e).__name__}")
+                        raise Stop()
                 self.refs[target].run(node_on)
             elif verb == "sm_uninstall":
                 ref = self.refs[target]
@@ -593,6 +597,12 @@ class Monitor:
                     self.v("port-open-without-running-software/check_port_is_open", f"check_port_is_open({int(s.port)},{s.protocol}) is true after "
                            f"{self.log[-1]} while {s.name} is {s.operating_state.name} and no RUNNING software has that port")
 
+    def mapping_entries(self):
+        """(key, software) pairs of port_protocol_mapping (tolerates a container of software per key)"""
+        for key, val in list(self.T.software_manager.port_protocol_mapping.items()):
+            for sw in (val if isinstance(val, (list, tuple, set, frozenset)) else [val]):
+                yield key, sw
+
     def check_registries(self, verb, with_state=False):
         from primaite.simulator.system.services.service import Service
 
@@ -632,7 +642,7 @@ class Monitor:
                     self.v(f"registry-stale-route/{label}@{at}", f"after {self.log[-1]}: the request route '{n}' does not lead to the installed "
                            f"instance of {n}")
         # port map: no stale entry; every installed software with a real port is reachable through its key
-        for key, s in sm.port_protocol_mapping.items():
+        for key, s in self.mapping_entries():
             if sm.software.get(s.name) is not s:
                 self.v(f"registry-stale-port-mapping@{at}", f"after {self.log[-1]}: port_protocol_mapping[{key}] is {s.name} which is not "
                        f"the installed instance of that name ({'absent' if s.name not in sm.software else 'other object'})")
@@ -641,8 +651,8 @@ class Monitor:
                 continue
             key = (s.port, s.protocol)
             sharers = [x for x in sm.software.values() if (x.port, x.protocol) == key]
-            m = sm.port_protocol_mapping.get(key)
-            if m is None or not any(m is x for x in sharers):
+            mapped = [m for k, m in self.mapping_entries() if k == key]
+            if not any(m is x for m in mapped for x in sharers):
                 self.v(f"port-mapping-lost@{at}", f"after {self.log[-1]}: installed {s.name} ({s.operating_state.name}) has port "
                        f"{key} but port_protocol_mapping has no entry for it (software with that key: {[x.name for x in sharers]})")
 
